@@ -23,12 +23,16 @@ from . import c04 as _c04
 PROP = "C15"
 SHARD = 8
 KINDS = {"main": dict(imports="From Coq Require Import ZArith String.\nFrom SS Require Import Base M_Slice M_Greenlet.",
-                      type="glet_case", mismatch="gmismatches", nontrivial="gcount_nontrivial")}
+                      type="glet_case", mismatch="gmismatches", nontrivial="gcount_nontrivial"),
+         "gb": dict(imports="From SS Require Import Base M_Greenback.", type="gb_case",
+                    mismatch="gb_mismatches", nontrivial="gb_nontrivial")}
 RULE = ("parked greenlet chains (0..3 nested greenlets, call depth 1..3 in each) x asker chains (0..3 nested greenlets, "
         "plain/generator/coroutine/stackscope-named frames) x base {fresh thread, main thread}; per scenario every "
         "greenlet in sight is extracted from the asker's innermost frame (current, ancestors, parked = outside/sibling/"
         "child/descendant view, dead, unstarted, running / suspended in another thread). non-trivial = some query yields "
-        ">= 2 frames or the other-thread error. greenback leg: alternation depth 0..3 (thorough 0..5), outside and inside")
+        ">= 2 frames or the other-thread error. kind gb: trio task with greenback alternation depth n = 0..3 (thorough 0..6), "
+        "extract(task.coro) from outside the task and from inside it j = 0..2 (thorough 0..3) greenlets below its sync code; "
+        "compared with M_Greenback.gb_extract in Coq and with the shadow call stack directly")
 CONFIG = dict(
     coq=["C15"], level="proof",
     claim=("Coq theorems about the executable model of unwrap_greenlet composed with the C04 model of unwrap_stackslice "
@@ -39,13 +43,16 @@ CONFIG = dict(
                   "harness/stackgen.py + c15.py abstract live greenlets to (gr_frame, bool, is-current, parent.gr_frame) and f_back chains"],
     assumptions=["CPython; a greenlet's f_back chain ends at its run function (greenlet >= 1.0 behaviour)",
                  "the greenlet tree does not change during one extraction"],
-    unproved_legs=["greenback in Coq: greenback bridges (elaborate_trampoline / elaborate_greenback_shim / elaborate_greenback_await): no Coq model; "
-                   "C15_greenback_n of the design is replaced by the runtime differential leg (alternation depth 0..M, outside and "
-                   "inside the task, shadow call log oracle, bridging frames hidden)",
-                   "C15_suspended for an ancestor of the asker is proved under the hypothesis that the ancestor's chain is one of "
-                   "the parent chains of the asker's world (true by construction of the world)"],
+    unproved_legs=["greenback: the frame shapes of greenback/greenlet/outcome/trio (what each object unwraps to, which frames "
+                   "follow which) are modelled from recorded runs, not derived; the theorems C15_greenback_n_* hold for the "
+                   "model M_Greenback.gb_extract, whose agreement with the real extract(task.coro) is checked by the "
+                   "correspondence kind 'gb' for n <= 3 / j <= 2 (thorough n <= 6 / j <= 3) only; the composition with the "
+                   "general extract_iter model (M_Frames) is not proved -- gb_extract is a specialised walk (hook results that "
+                   "are objects replace the whole inward rest)",
+                   "C15_asker_independent_ancestor takes as hypothesis that the ancestor's chain is one of the parent chains of "
+                   "the asker's world (true by construction of the world)"],
     timeout={"quick": 900, "thorough": 3600},
-    NOTES="greenback part is runtime-only (time budget); lifecycle part follows the design.",
+    NOTES="greenback: specialised model M_Greenback instead of an M_Frames hook table (M_Frames.elab does not see next_inner).",
 )
 
 
@@ -55,6 +62,11 @@ ASKER = ["p", "pp", "Gp", "pGp", "GpGp", "pGpGp", "GpGpGp", "gGpc", "Gm", "pGpm"
 
 def make_inputs(tier, seed):
     rng = random.Random(seed * 7919 + 15)
+    nmax, jmax = (3, 2) if tier == "quick" else (6, 3)
+    for n in range(nmax + 1):
+        yield {"_kind": "gb", "inside": False, "n": n, "j": 0}
+        for j in range(jmax + 1):
+            yield {"_kind": "gb", "inside": True, "n": n, "j": j}
     k = 0
     for s in SUSP:
         for a in ASKER:
@@ -222,6 +234,8 @@ def _classes():
 
 
 def run_case(desc):
+    if desc.get("_kind") == "gb":
+        return gb_scenario(desc["inside"], desc["n"], desc["j"])
     c = _classes()(desc)
     c.run(desc["base"])
     internal = c.internal_chain()
@@ -260,11 +274,17 @@ def _gres(r):
 
 
 def coq_case(desc, obs):
+    if desc.get("_kind") == "gb":
+        return gb_coq(desc, obs)
     qs = clist("(%s, %s)" % (_glet(g), _gres(r)) for g, r in zip(obs["glets"], obs["results"]))
     return "(%s,\n %s)" % (_c04._world(obs), qs)
 
 
 def direct_oracle(desc, obs):
+    if desc.get("_kind") == "gb":
+        msg = gb_oracle(desc, obs)
+        return None if msg is None else "greenback task, alternation depth %d, extracted from %s: %s" % (
+            desc["n"], ("inside, %d greenlet(s) below the task's sync code" % desc["j"]) if desc["inside"] else "outside", msg)
     if obs["problems"]:
         return "harness self-check failed: " + "; ".join(obs["problems"])
     if obs["tc"] is None or obs["tc"] < (obs["cur"][-1][0] if obs["cur"] else 0):
@@ -284,6 +304,8 @@ def direct_oracle(desc, obs):
 
 
 def classify(desc, obs):
+    if desc.get("_kind") == "gb":
+        return ["greenback:%s" % ("inside-j%d" % desc["j"] if desc["inside"] else "outside"), "greenback:n=%d" % desc["n"]]
     labs = ["asker-segments=%d" % (1 + len(obs["parents"])), "base:" + desc["base"],
             "parked=%d" % sum(1 for g in obs["glets"] if g["name"].startswith("susp"))]
     for g, r in zip(obs["glets"], obs["results"]):
@@ -291,83 +313,155 @@ def classify(desc, obs):
     return labs
 
 
-# ------------------------------------------------------------------ greenback runtime leg
-def _greenback_leg(depth_max):
-    """sync/async alternation through greenback.await_ inside a trio task; the stack of the task is
-    extracted from outside (another task, target parked) and from inside (innermost frame)."""
+# ------------------------------------------------------------------ greenback
+USER = ("target", "a_level", "s_level", "s_leaf", "nested", "probe")
+BRIDGE = ("await_", "_greenback_shim", "trampoline", "switch", "send", "adapt_awaitable")
+ALLOWED_VISIBLE = ("greenback_shim", "wait")
+
+
+def gb_scenario(inside, n, j, portal=True):
+    """A trio task alternating n times between async code (a_level k) and sync code (s_level k)
+    through greenback.await_.  Its stack is extracted (extract(task.coro)) either from another
+    task while it is parked at level 0 (outside), or from its own innermost sync code, j greenlets
+    below it (inside; j = 0: directly).  Returns the frames (name, hidden), the error and the
+    shadow call stack at the moment of the extraction."""
     import greenback
+    import greenlet
     import trio
     import stackscope
 
-    viol, n = [], 0
+    box = {}
+    shadow = []
 
-    def names(stack):
-        return [(f.pyframe.f_code.co_name, bool(f.hide)) for f in stack.frames]
+    def probe():
+        shadow.append("probe")
+        try:
+            box["shadow"] = list(shadow)
+            box["stack"] = stackscope.extract(box["task"].coro, with_contexts=False)
+        finally:
+            shadow.pop()
 
-    for depth in range(depth_max + 1):
-        for where in ("inside", "outside"):
-            log = []
-            box = {}
+    def nested(k):
+        shadow.append("nested")
+        try:
+            if k == 0:
+                return probe()
+            return greenlet.greenlet(nested).switch(k - 1)
+        finally:
+            shadow.pop()
 
-            async def a_level(k):
-                log.append("a%d" % k)
-                if k == 0:
-                    if where == "inside":
-                        box["stack"] = stackscope.extract(box["task"].coro, with_contexts=False)
-                    else:
-                        box["parked"].set()
-                        await box["go"].wait()
-                    return
-                await trio.lowlevel.checkpoint()
-                s_level(k)
+    def s_leaf():
+        shadow.append("s_leaf")
+        try:
+            nested(j)
+        finally:
+            shadow.pop()
 
-            def s_level(k):
-                log.append("s%d" % k)
-                greenback.await_(a_level(k - 1))
+    async def a_level(k):
+        shadow.append("a_level")
+        try:
+            if k == 0:
+                if inside:
+                    s_leaf()
+                else:
+                    box["parked"].set()
+                    await box["go"].wait()
+                return
+            await trio.lowlevel.checkpoint()
+            s_level(k)
+        finally:
+            shadow.pop()
 
-            async def target():
-                box["task"] = trio.lowlevel.current_task()
-                if depth:
-                    await greenback.ensure_portal()
-                await a_level(depth)
+    def s_level(k):
+        shadow.append("s_level")
+        try:
+            greenback.await_(a_level(k - 1))
+        finally:
+            shadow.pop()
 
-            async def main():
-                box["parked"], box["go"] = trio.Event(), trio.Event()
-                async with trio.open_nursery() as nur:
-                    nur.start_soon(target)
-                    if where == "outside":
-                        await box["parked"].wait()
-                        box["stack"] = stackscope.extract(box["task"].coro, with_contexts=False)
-                        box["go"].set()
-            trio.run(main)
-            n += 1
-            st = box["stack"]
-            got = names(st)
-            vis = [nm for nm, hid in got if not hid]
-            user = [nm for nm in vis if nm in ("a_level", "s_level", "target")]
-            exp = ["target"]
-            for k in range(depth, -1, -1):
-                exp.append("a_level")
-                if k:
-                    exp.append("s_level")
-            bridge = {"await_", "_greenback_shim", "trampoline", "switch", "adapt_awaitable"}
-            bad = None
-            if st.error is not None:
-                bad = "error %r" % (st.error,)
-            elif user != exp:
-                bad = "user frames %r, call log says %r" % (user, exp)
-            elif any(nm in bridge for nm in vis):
-                bad = "bridging frame visible: %r" % ([nm for nm in vis if nm in bridge],)
-            elif depth and not any(nm == "await_" and hid for nm, hid in got):
-                bad = "no hidden await_ frame although depth=%d" % depth
-            elif where == "inside" and any(nm.startswith("extract") or nm == "unwrap_stackslice" for nm, _ in got):
-                bad = "stackscope's own frames in the result"
-            if bad:
-                viol.append({"what": "greenback alternation depth %d extracted from %s: %s" % (depth, where, bad),
-                             "input": {"depth": depth, "where": where, "frames": got}})
-    return n, viol
+    async def target():
+        shadow.append("target")
+        try:
+            box["task"] = trio.lowlevel.current_task()
+            if portal:
+                await greenback.ensure_portal()
+            await a_level(n)
+        finally:
+            shadow.pop()
+
+    async def main():
+        box["parked"], box["go"] = trio.Event(), trio.Event()
+        async with trio.open_nursery() as nur:
+            nur.start_soon(target)
+            if not inside:
+                await box["parked"].wait()
+                box["shadow"] = list(shadow)
+                box["stack"] = stackscope.extract(box["task"].coro, with_contexts=False)
+                box["go"].set()
+    trio.run(main)
+    st = box["stack"]
+    return {"frames": [[f.pyframe.f_code.co_name, bool(f.hide)] for f in st.frames],
+            "error": None if st.error is None else repr(st.error)[:200],
+            "leaf": None if st.leaf is None else repr(st.leaf)[:80],
+            "shadow": box["shadow"]}
+
+
+def gb_oracle(desc, obs):
+    """property text: frames continue through every bridge (= the shadow call stack), the caller's
+    own frames are present, bridging internals hidden, no error"""
+    if obs["error"] is not None:
+        return "error %s" % obs["error"]
+    vis = [nm for nm, hid in obs["frames"] if not hid]
+    user = [nm for nm in vis if nm in USER]
+    if user != obs["shadow"]:
+        return "user frames %r, the call stack at that moment is %r" % (user, obs["shadow"])
+    bad = [nm for nm in vis if nm in BRIDGE]
+    if bad:
+        return "bridging frames visible: %r" % bad
+    other = [nm for nm in vis if nm not in USER and nm not in ALLOWED_VISIBLE]
+    if other:
+        return "unexpected visible frames %r" % other
+    if desc["inside"] and (not vis or vis[-1] != "probe"):
+        return "the caller's own frames are missing: innermost visible frame %r" % (vis[-1:] or None)
+    if any(nm.startswith("extract") or nm.startswith("unwrap_") for nm, _ in obs["frames"]):
+        return "stackscope's own frames in the result"
+    if desc["n"] and not any(nm == "await_" and hid for nm, hid in obs["frames"]):
+        return "no hidden await_ frame although n=%d" % desc["n"]
+    return None
+
+
+_GBK = {"greenback_shim": "FShimCoro", "_greenback_shim": "FShim", "trampoline": "FTramp", "send": "FSend",
+        "target": "FTarget", "s_leaf": "FLeaf", "nested": "FNested", "probe": "FProbe", "wait": "FWait",
+        "wait_task_rescheduled": "FWTR", "switch": "FSwitch"}
+_GBL = {"a_level": "FA", "s_level": "FS", "await_": "FAwait"}
+
+
+def gb_coq(desc, obs):
+    cnt = {}
+    ents = []
+    for nm, hid in obs["frames"]:
+        if nm in _GBL:
+            i = cnt.get(nm, 0)
+            cnt[nm] = i + 1
+            lvl = desc["n"] - i
+            ents.append("(%s %d, %s)" % (_GBL[nm], lvl if lvl >= 0 else 99, cbool(hid)))
+        elif nm in _GBK:
+            ents.append("(%s, %s)" % (_GBK[nm], cbool(hid)))
+        else:
+            ents.append("(FSwitch, false)")          # unknown frame: never produced by the model
+    res = ("GErr %s" if obs["error"] is not None else "GOk %s") % clist(ents)
+    return "(Build_scenario %s %d %d, %s)" % (cbool(desc["inside"]), desc["n"], desc["j"], res)
 
 
 def extra_legs(tier, seed):
-    n, viol = _greenback_leg(3 if tier == "quick" else 5)
-    return dict(evaluations=n, violations=viol, info={"greenback_alternation_runs": n}, known_reproduced=[])
+    """greenback without a portal at alternation depth 0 (no bridge at all): plain coroutine stack"""
+    viol, n = [], 0
+    for inside in (True, False):
+        for j in (0, 1):
+            d = {"inside": inside, "n": 0, "j": j}
+            obs = gb_scenario(inside, 0, j, portal=False)
+            n += 1
+            msg = gb_oracle(d, obs)
+            if msg:
+                viol.append({"what": "no-portal task, %r: %s" % (d, msg), "input": d, "observed": obs})
+    return dict(evaluations=n, violations=viol, info={"no_portal_runs": n}, known_reproduced=[])
